@@ -121,6 +121,14 @@ def symbol (scaling rmin : Option Rat) (nb : Int) (x : Option Rat) : Int :=
       if r < 1 then truncInt (r * (nb : Rat)) else nb - 1
   | _, _, _ => nb - 1
 
+/-- the symbol as the C code computes it in floating point: each of the three
+operations (`x - range_min`, `scaling * ·`, `· * n_bins`) is followed by a
+rounding `rnd` to the working format (finite operands; `symbol` is the case
+`rnd = id`) -/
+def symbolRnd (rnd : Rat → Rat) (s m : Rat) (nb : Int) (v : Rat) : Int :=
+  let r := rnd (s * rnd (v - m))
+  if r < 1 then truncInt (rnd (r * (nb : Rat))) else nb - 1
+
 /-- does some sample `k < T` satisfy `p`? (a histogram bin is positive) -/
 def anyK (T : Nat) (p : Nat → Bool) : Bool := (List.range T).any p
 
